@@ -25,7 +25,7 @@ struct ObjRec {
 };
 
 struct DistRec { std::string name; bool has_name = false; unsigned long kind = 0; std::vector<uint64_t> objs; std::vector<int> types; std::vector<uint64_t> values; std::string text() const; };
-struct MemInit { std::string loc; uint64_t value = 0; };
+struct MemInit { std::string loc; uint64_t value = 0; bool is_cs = false; BSet cs; };
 struct MemTarget { uint64_t gp = 0; bool has_value = false; uint64_t value = 0; std::vector<MemInit> inits; };
 struct MemattrRec { unsigned id = 0; std::string name; unsigned long flags = 0; std::vector<MemTarget> targets; std::string text() const; };
 struct KindRec { BSet cs; int eff = 0; Infos infos; std::string text() const; };
@@ -51,6 +51,9 @@ struct Dump {
   // full = everything; xmlproj = projection on what XML export/import promises to preserve (C05 statement)
   std::string text(bool xmlproj = false, bool with_userdata = true) const;
   std::string aux_text(bool xmlproj = false) const;
+  // same content with every gp_index replaced by the object's pre-order rank: lock-step comparison of replicas whose
+  // hidden gp counters legitimately differ (the value of future gp_index is not promised, only uniqueness)
+  std::string text_norm(bool xmlproj) const;
   uint64_t hash() const { return hash_str(text()); }
 };
 
